@@ -113,6 +113,10 @@ func Run(d *fw.Driver, res *fw.Result, seed int64, thorough bool) error {
 	if err := healNearTimeout(res, seed, base); err != nil {
 		return err
 	}
+	base += 20
+	if err := stalledSubscriber(res, seed, base); err != nil {
+		return err
+	}
 	return slowPeer(res)
 }
 
@@ -428,6 +432,89 @@ func healNearTimeout(res *fw.Result, seed int64, base int) error {
 	case n != n0+1:
 		res.Add(fw.Finding{Kind: "monitor", Signature: sig + " healthy link dropped",
 			Detail: fmt.Sprintf("the link re-established %v after the loss (timeout %v, ping %v) was healthy and idle, yet %d further connection(s) were opened within the next %v: the idle timer armed at the loss closed the new connection", healedAt.Round(time.Millisecond), T, P, n-n0-1, T+T/2), Case: c})
+	}
+	return nil
+}
+
+// stalledSubscriber: a subscriber that does not read for several timeouts while tens of thousands of values
+// are queued for it.  The link is healthy and must stay up: pongs keep being processed, other calls keep
+// working, and when the subscriber resumes it finds every value.
+func stalledSubscriber(res *fw.Result, seed int64, base int) error {
+	const P, T, N = 100 * time.Millisecond, 500 * time.Millisecond, 70000
+	e, err := scen.NewEnv(seed+88, 0, jsonrpc.WithServerPingInterval(5*time.Second))
+	if err != nil {
+		return err
+	}
+	defer scen.WithTimeout(5*time.Second, e.Close) // (a wedged endpoint must not wedge the check)
+	ctx, cancel := context.WithCancel(context.Background())
+	defer cancel()
+	cl, closer, err := e.Client(ctx, jsonrpc.WithPingInterval(P), jsonrpc.WithTimeout(T), jsonrpc.WithReconnectBackoff(10*time.Millisecond, 20*time.Millisecond))
+	if err != nil {
+		return err
+	}
+	defer scen.WithTimeout(3*time.Second, closer)
+	sig := "subscriber stalled with a long backlog"
+	c := map[string]interface{}{"scenario": "stalled-subscriber", "values": N, "timeout": T.String()}
+	probe := scen.StartLagProbe()
+	ch, err := cl.Sub(ctx, base+1, N)
+	if err != nil {
+		return fmt.Errorf("stalled-subscriber: subscribing failed: %v", err)
+	}
+	// do not read; the producer runs as fast as the library takes its values
+	deadline := time.Now().Add(6 * time.Second)
+	for time.Now().Before(deadline) && !e.H.C.Exited(base+1) {
+		time.Sleep(5 * time.Millisecond)
+	}
+	produced := e.H.C.Exited(base + 1)
+	time.Sleep(2 * T)
+	lag := probe.Stop()
+	n := e.PX.Accepted()
+	// (a cancelled call still waits for its response: do not let a wedged connection wedge the scenario)
+	var v int
+	cerr := fmt.Errorf("no answer within 3s")
+	cdone := make(chan struct{})
+	go func() {
+		defer close(cdone)
+		cctx, cc := context.WithTimeout(ctx, 2*time.Second)
+		defer cc()
+		x, err := cl.Count(cctx, base+2)
+		v, cerr = x, err
+	}()
+	select {
+	case <-cdone:
+	case <-time.After(3 * time.Second):
+	}
+	got := 0
+	closed := false
+	drain := time.After(8 * time.Second)
+loop:
+	for {
+		select {
+		case _, ok := <-ch:
+			if !ok {
+				closed = true
+				break loop
+			}
+			got++
+		case <-drain:
+			break loop
+		}
+	}
+	res.Count("stalled-subscriber")
+	res.Eval(true, []interface{}{"stalled-subscriber"})
+	if lag > T/4 {
+		res.Count("stalled-subscriber.inconclusive-slow-environment")
+		return nil
+	}
+	switch {
+	case n != 1:
+		res.Add(fw.Finding{Kind: "monitor", Signature: sig + " healthy link dropped", Detail: fmt.Sprintf("the client connected %d times while a subscriber was not reading: a healthy link was dropped", n), Case: c})
+	case !produced:
+		res.Add(fw.Finding{Kind: "monitor", Signature: sig + " producer blocked", Detail: fmt.Sprintf("6s after subscribing the handler has not been able to send its %d values although the library buffers for a subscriber that does not read", N), Case: c})
+	case cerr != nil || v != base+2:
+		res.Add(fw.Finding{Kind: "monitor", Signature: sig + " other call fails", Detail: fmt.Sprintf("an ordinary call on the same connection failed: %d, %v", v, cerr), Case: c})
+	case !closed || got != N:
+		res.Add(fw.Finding{Kind: "monitor", Signature: sig + " values lost", Detail: fmt.Sprintf("the subscriber, once it resumed, received %d of %d values (closed=%v)", got, N, closed), Case: c})
 	}
 	return nil
 }
